@@ -38,7 +38,7 @@ SAN_OK = True
 def lanes(tier):
     if tier == "quick":
         return [("plain", "plain", 200), ("san", "san", 40), ("poly", "plain", 160), ("polysan", "san", 32)]
-    return [("plain", "plain", 6000), ("san", "san", 800), ("poly", "plain", 10000), ("polysan", "san", 1000)]
+    return [("plain", "plain", 6000), ("san", "san", 800), ("poly", "plain", 10000), ("polysan", "san", 1000), ("vg-san", "vg", 8), ("vg-polysan", "vg", 8)]
 
 
 def run_poly_direct(rng, counters):
